@@ -8,6 +8,7 @@ CONSTANTS
   TYPES = {"d2", "d3"}
   USIZE = 8
   PROP = "C10"
+  APPLYS = {0, 1, 2, 3, 4, 5}
 SPECIFICATION Spec
 VIEW View
 INVARIANTS C10 C04 C06 C11 BufInv
